@@ -99,6 +99,9 @@ Judge(r) ==
      \o f(~r.stuck /\ r.fault = "" /\ ~FlatComplete(r, C), "C05")
      \o f(~r.stuck /\ r.fault = "" /\ ~(ShareDelivery(r, C) /\ PublishOnce(r, C)), "C11")
      \o f(r.late, "C02")
+     (* C17, last clause, under threads: in a pipeline whose subscription is a composite (merge_all ...) a subscriber called  *)
+     (* after unsubscribe() returned means that an addition racing with the teardown was left running                       *)
+     \o f(r.late /\ Op(C.root) = "flat", "C17")
      \o f(r.late \/ r.stuck \/ r.fault # "", "C19")      \* a cancelled task's body (or what it subscribed) acts after unsubscribe() returned
      \o f(r.cnt[CntFin] # 1, "C15")
      \o f("F14" \notin KF /\ ~BehaviorOK(r.probes), "C12")
